@@ -263,8 +263,8 @@ def lganm_case(draw, p_max):
 
 def plan(tier, seed):
     jobs = []
-    n = scaled(3200 if tier == "quick" else 50000)
-    nl = scaled(1200 if tier == "quick" else 20000)
+    n = scaled(9600 if tier == "quick" else 120000)
+    nl = scaled(4800 if tier == "quick" else 60000)
     shards = 16 if tier == "quick" else 64
     for k in range(shards):
         jobs.append({"sub": "reg", "seed": seed, "shard": k, "n": max(1, n // shards), "cost": 10})
